@@ -19,6 +19,7 @@ class C43(SchedProp):
         'CylcModel.C43.stop_point_submit_loop',
         'CylcModel.C43.stop_point_shutdown',
         'CylcModel.C43.auto_shutdown_sound',
+        'CylcModel.C43.auto_shutdown_counterexample',
         'CylcModel.C43.db_stop_point_inv',
         'CylcModel.C43.stop_point_recorded',
         'CylcModel.C43.stop_point_persisted',
@@ -50,7 +51,8 @@ class C43(SchedProp):
         'loop decides (after its runahead release): nothing at or before the stop point remains + everything beyond is '
         'waiting and runahead-limited + not stalled/paused => AUTOMATIC shutdown and DB stopcp cleared; conversely an '
         'AUTOMATIC shutdown not caused by the stop task implies no preparing/submitted/running proxy and every waiting proxy '
-        'runahead-limited (that such a proxy lies beyond the stop point is not proved: it needs the runahead-base caches). '
+        'runahead-limited; the full converse "only once nothing at or before the stop point remains" is FALSE (proved '
+        'counterexample = finding stale-runahead-limit: the limit stays at a lowered stop point after it is raised again). '
         '(3) forgotten/persisted: DB stopcp = current stop point whenever recorded (all runs); it changes only by `cylc stop '
         '<point>` or by the automatic shutdown; restart restores DB stopcp, else flow.cylc, else the final point (graph '
         'hypothesis WF: initial stop point = configured-or-final, checked by the driver on every graph). (4) stop task: the '
